@@ -70,7 +70,8 @@ def op_cases(draw):
     for _ in range(draw(st.integers(1, 30))):
         k = draw(st.sampled_from(['has', 'get', 'set', 'set', 'set_node', 'remove',
                                   'rename', 'has_type', 'is_empty', 'seq_items',
-                                  'classify', 'make_mapping']))
+                                  'classify', 'make_mapping', 'set_from', 'set_from',
+                                  'hold']))
         name = draw(st.sampled_from(NAMES + FRESH[:1]))
         if k == 'set':
             ops.append([k, name, draw(st.sampled_from(PY_SCALARS))])
@@ -78,6 +79,8 @@ def op_cases(draw):
             ops.append([k, name, draw(value_trees())])
         elif k == 'rename':
             ops.append([k, name, draw(st.sampled_from(FRESH + NAMES))])
+        elif k == 'set_from':
+            ops.append([k, name, draw(st.sampled_from(NAMES))])
         elif k == 'has_type':
             ops.append([k, name, draw(st.sampled_from(TYPES))])
         elif k == 'make_mapping':
@@ -100,6 +103,7 @@ def run_ops(case, ctx):
     mut_present = mut_absent = False
     steps = 0
     hist = []
+    held = []
 
     def fail(clause, sig, msg):
         ctx.finding(clause, sig, '%s\n  initial node: %s\n  history: %s'
@@ -143,6 +147,21 @@ def run_ops(case, ctx):
                 pt.set_(model, name, pt.from_plain(T.plain(sub)))
                 mut_present |= present
                 mut_absent |= not present
+            elif k == 'set_from':
+                # d[name] = d[src]: the value node itself is assigned
+                src = op[2]
+                if not pt.has(model, src):
+                    hist.pop()
+                    steps -= 1
+                    continue
+                node.set_attribute(name, node.get_attribute(src).yaml_node)
+                pt.set_(model, name, copy.deepcopy(pt.get(model, src)))
+                mut_present |= present
+                mut_absent |= not present
+            elif k == 'hold':
+                # keep a handle on the current value; it must keep showing it
+                if present:
+                    held.append((name, node.get_attribute(name), pt.freeze(pt.get(model, name))))
             elif k == 'remove':
                 node.remove_attribute(name)
                 pt.remove(model, name)
@@ -197,6 +216,11 @@ def run_ops(case, ctx):
         except Exception as e:
             return fail('ops', 'raises:%s:%s' % (k, exc_signature(e)),
                         '%s raised %s: %s' % (op, type(e).__name__, e))
+        for hname, hnode, hval in held:
+            if T.plain(hnode.yaml_node) != hval:
+                return fail('ops', 'held_value_changed',
+                            'the Node obtained earlier from get_attribute(%r) showed %r and now shows %r'
+                            % (hname, hval, T.plain(hnode.yaml_node)))
         now = T.plain(node.yaml_node)
         if now != pt.freeze(model):
             return fail('ops', 'state_after_' + k,
